@@ -168,8 +168,9 @@ VERUS_NOTE = "trusted: Verus/z3, rustc; extraction tool tools/rsx.py (token-exac
 
 PROPS["C01"] = dict(
     level="proof", engine="verus+kani",
-    verus=[dict(unit="state"), dict(unit="rle"), dict(unit="mvd_pred"), dict(unit="gather")],
-    functions=STATE_FNS + ["h263::decoder::cpu::rle::inverse_rle", "h263::decoder::cpu::mvd_pred::{predict_candidate,halfpel_decode,mv_decode}", "h263::decoder::cpu::gather::{read_sample,lerp,gather_block,gather}", "h263::types::{HalfPel,MotionVector} arithmetic"],
+    verus=[dict(unit="state"), dict(unit="rle"), dict(unit="mvd_pred"), dict(unit="gather"), dict(unit="macroblock"), dict(unit="block"), dict(unit="gob")],
+    functions=STATE_FNS + ["h263::decoder::cpu::rle::inverse_rle", "h263::decoder::cpu::mvd_pred::{predict_candidate,halfpel_decode,mv_decode}", "h263::decoder::cpu::gather::{read_sample,lerp,gather_block,gather}", "h263::types::{HalfPel,MotionVector} arithmetic",
+                             "h263::parser::macroblock::{decode_cbpb,decode_dquant,decode_motion_vector,decode_macroblock}", "h263::parser::block::decode_block", "h263::parser::gob::decode_gob"],
     level_text="deductive proof (Verus) of the real text of decode_next_picture (350 lines, lambda-lifted), the H263State/DecodedPicture methods and the type helpers: every arithmetic operation, index, slice, division, unwrap and callee precondition on the decode path is discharged for ALL header values, picture sizes, macroblock counts, bit strings and decoder histories (representation invariant wf), and the macroblock loop carries a decreases measure (remaining bits), so it terminates; callee kernels and parsers are verified against the same shared contracts in their own units. One open known finding (D12: HalfPel overflow in UMV+PLUSPTYPE mode)",
     level_note=VERUS_NOTE + "; A-READ: the byte source is finite; A-F32-TOTAL: float arithmetic never traps",
     assumptions=["A-READER: reader operations by contract (C14 proves them on the real reader for bounded buffers)", "A-CORE, A-BITFLAGS, A-CAP (see DESIGN.md section 6)", "allocation failure excluded (property statement)"],
@@ -192,7 +193,7 @@ PROPS["C03"] = dict(
 )
 PROPS["C04"] = dict(
     level="proof", engine="verus",
-    verus=[dict(unit="state")],
+    verus=[dict(unit="state"), dict(unit="macroblock")],
     functions=STATE_FNS[:1],
     level_text="deductive proof (Verus) over the abstract state (last picture, reference picture) of the real H263State methods: new / getters / cleanup_buffers / decode_next_picture each carry a postcondition over the WHOLE view, for every decoder state satisfying the representation invariant - hence for every history of accepted pictures, rejected pictures and clean-ups, every temporal reference value (incl. equal to the reference's and wrapped) - unbounded",
     level_note=VERUS_NOTE + "; HashMap modelled by vstd's map axioms for u16 keys; HashMap::remove_entry by assume_specification",
@@ -205,6 +206,14 @@ PROPS["C05"] = dict(
     level_text="deductive proof (Verus): `Err ==> *final(self) == *old(self)` for the lifted body of decode_next_picture (all fields incl. the picture map) on every path, and `Err ==> reader position == position before the call` for the transaction wrapper (the text of with_transaction instantiated with the body), for all inputs and histories; the reader-side clauses (rollback restores the position, buffered bytes are retained, append behaves like all-at-once) are Kani obligations of C14",
     level_note=VERUS_NOTE + "; determinism of a &mut self method without interior mutability or statics is the premise of the retry clause (mechanical scan)",
     assumptions=["reader checkpoint/rollback/commit by contract (A-READER)", "retry/append clause relies on the reader contract for a growing source (C14 harness two_phase)"],
+)
+PROPS["C15"] = dict(
+    level="proof", engine="verus+kani",
+    verus=[dict(unit="state"), dict(unit="macroblock"), dict(unit="block"), dict(unit="gob")],
+    functions=["h263::decoder::state::H263State::decode_next_picture (loop exit contract, commit)", "h263::parser::macroblock::decode_macroblock", "h263::parser::block::decode_block", "h263::parser::gob::decode_gob"],
+    level_text="deductive proof (Verus) with ghost bit accounting over the abstract reader (absolute position rpos): whatever ends the macroblock loop - picture complete, end of data, a start code in Sorenson or standard mode - is NOT consumed (loop `ensures rpos == position at the start of the last iteration`); decode_macroblock / decode_block / decode_gob consume nothing on Err and on Ok(None) (their transaction wrappers are the text of with_transaction*), commit keeps the position; hence after Ok the reader stands at the end of this picture's macroblock data, for every picture, size and history. The start-code search window (< 8 stuffing bits) is the reader contract recognize_start_code (C14)",
+    level_note=VERUS_NOTE + "; the concatenation statement over N pictures follows by induction over calls from this per-call contract and C04/C05 (not mechanised as a separate lemma)",
+    assumptions=["reader operations by contract (A-READER, C14)", "induction over the picture sequence stated, not mechanised"],
 )
 PROPS["C07"] = dict(
     level="proof",
@@ -226,7 +235,7 @@ PROPS["C08"] = dict(
 PROPS["C11"] = dict(
     level="proof",
     engine="kani+verus",
-    verus=[dict(unit="state")],
+    verus=[dict(unit="state"), dict(unit="block"), dict(unit="macroblock"), dict(unit="rle")],
     functions=["h263::decoder::cpu::rle::inverse_rle", "h263::types::IntraDc::{from_u8,into_level}", "h263::decoder::state::H263State::decode_next_picture (quantizer update)"],
     level_text="complete proofs over the finite domains: inverse_rle's single-event contract is discharged by CBMC for every quantizer 1..=31 x level -1023..=1023 x run 0..=63 with and without INTRADC (one symbolic query each), the INTRADC map for all 256 codes, the zig-zag table against Figure 14; the quantizer clamp after DQUANT is an assertion in the Verus proof of the real decode loop (all histories); escape widths are part of the block parser contract",
     level_note="trusted: Kani/CBMC, Verus/z3; spec/h263_tables.rs typed from H.263 6.2 / Table 15 / Figure 14; the decode-loop proof assumes the parser contracts (shared_contracts.vrs) proved in the parser units",
